@@ -441,23 +441,45 @@ Theorem C05_shacl_node_shapes_iff : forall ns tau shapes L g,
 Proof. intros ns tau shapes L g. exact (shacl_gen_node_shapes_iff no_patterns ns tau shapes L g). Qed.
 Print Assumptions C05_shacl_node_shapes_iff.
 
+(** "the class of its shape": the IRI [_add_target_class] makes of the shape's class key
+    ([SerialShacl.target_class_obj]: the key itself, or -- once the method removes the corners a
+    shape-map label is kept in, flag [c_shacl_target_strips_corners] -- the key without them) *)
 Theorem C05_shacl_one_node_shape_per_shape : forall ns tau shapes L g,
+  shacl_graph ns tau shapes = inl g -> names_iris_by target_class_obj shapes L -> NoDup (map fst L) ->
+  node_shapes_exact g L.
+Proof. intros ns tau shapes L g. exact (shacl_gen_node_shapes_exact_by no_patterns ns tau shapes L g). Qed.
+Print Assumptions C05_shacl_one_node_shape_per_shape.
+
+(** ... which is the class key itself for every shape list without a key in corners (every class-based
+    extraction: [C05_run_classes_plain]) and for the text of the method that does not touch the key *)
+Theorem C05_shacl_one_node_shape_per_shape_class : forall ns tau shapes L g,
+  (forall sh, In sh shapes -> target_class_obj (sh_class sh) = sh_class sh) ->
   shacl_graph ns tau shapes = inl g -> names_iris shapes L -> NoDup (map fst L) ->
   node_shapes_exact g L.
 Proof. intros ns tau shapes L g. exact (shacl_gen_node_shapes_exact no_patterns ns tau shapes L g). Qed.
-Print Assumptions C05_shacl_one_node_shape_per_shape.
+Print Assumptions C05_shacl_one_node_shape_per_shape_class.
+
+Theorem C05_target_class_obj_cases : forall c,
+  (cornered c = false -> target_class_obj c = c) /\
+  (c_shacl_target_strips_corners = false -> target_class_obj c = c) /\
+  (c_shacl_target_strips_corners = true -> forall i, c = Str "<" ++ i ++ Str ">" -> target_class_obj c = i).
+Proof.
+  intros c. split; [apply ShaclProofs.target_class_obj_plain|]. split; [apply ShaclProofs.target_class_obj_old|].
+  intros Hf i ->. apply ShaclProofs.target_class_obj_new. exact Hf.
+Qed.
+Print Assumptions C05_target_class_obj_cases.
 
 (** the same with [detect_minimal_iri] on ([sh:pattern] arcs on the node shapes) *)
 Theorem C05_shacl_any_detect : forall z ns tau shapes L g,
-  shacl_graph_gen z ns tau shapes = inl g -> names_iris shapes L ->
+  shacl_graph_gen z ns tau shapes = inl g -> names_iris_by target_class_obj shapes L ->
   (ClosureLemmas.refs_closed shapes -> node_objects_declared g (map fst L)) /\
   property_shapes_one_path g /\
   (NoDup (map fst L) -> node_shapes_exact g L).
 Proof.
   intros z ns tau shapes L g Hg HL. split; [|split].
-  - exact (shacl_gen_node_objects_declared z ns tau shapes L g Hg HL).
+  - exact (shacl_gen_node_objects_declared_by _ z ns tau shapes L g Hg HL).
   - exact (shacl_gen_one_path z ns tau shapes g Hg).
-  - exact (shacl_gen_node_shapes_exact z ns tau shapes L g Hg HL).
+  - exact (shacl_gen_node_shapes_exact_by z ns tau shapes L g Hg HL).
 Qed.
 Print Assumptions C05_shacl_any_detect.
 
@@ -466,18 +488,38 @@ Print Assumptions C05_shacl_any_detect.
 Theorem C05_shacl_graph_total : forall ns tau shapes,
   forallb (SerialShacl.C11_dom_shape ns tau) shapes = true ->
   exists cs d L, shex_doc_view ns tau shapes = VOk cs /\ shacl_doc tau shapes = VOk d /\
-                 same_doc d (enc_doc cs) /\ shacl_graph ns tau shapes = inl (doc_triples 0 d) /\
-                 names_iris shapes L.
+                 same_doc d (enc_doc (map retarget cs)) /\ shacl_graph ns tau shapes = inl (doc_triples 0 d) /\
+                 names_iris_by target_class_obj shapes L.
 Proof. exact shacl_graph_total. Qed.
 Print Assumptions C05_shacl_graph_total.
 
 Theorem C05_shacl_wellformed : forall ns tau shapes,
   forallb (SerialShacl.C11_dom_shape ns tau) shapes = true ->
   ClosureLemmas.refs_closed shapes -> NoDup (map sh_name shapes) ->
-  exists g L, shacl_graph ns tau shapes = inl g /\ names_iris shapes L /\
+  exists g L, shacl_graph ns tau shapes = inl g /\ names_iris_by target_class_obj shapes L /\
               node_objects_declared g (map fst L) /\ property_shapes_one_path g /\ node_shapes_exact g L.
 Proof. exact shacl_graph_wellformed. Qed.
 Print Assumptions C05_shacl_wellformed.
+
+(** the two statements with "the class" read as the class key itself ([names_iris], [enc_doc cs]):
+    for shape lists whose keys [_add_target_class] leaves as they are *)
+Theorem C05_shacl_graph_total_class : forall ns tau shapes,
+  forallb (SerialShacl.C11_dom_shape ns tau) shapes = true ->
+  (forall sh, In sh shapes -> target_class_obj (sh_class sh) = sh_class sh) ->
+  exists cs d L, shex_doc_view ns tau shapes = VOk cs /\ shacl_doc tau shapes = VOk d /\
+                 same_doc d (enc_doc cs) /\ shacl_graph ns tau shapes = inl (doc_triples 0 d) /\
+                 names_iris shapes L.
+Proof. exact shacl_graph_total_class. Qed.
+Print Assumptions C05_shacl_graph_total_class.
+
+Theorem C05_shacl_wellformed_class : forall ns tau shapes,
+  forallb (SerialShacl.C11_dom_shape ns tau) shapes = true ->
+  ClosureLemmas.refs_closed shapes -> NoDup (map sh_name shapes) ->
+  (forall sh, In sh shapes -> target_class_obj (sh_class sh) = sh_class sh) ->
+  exists g L, shacl_graph ns tau shapes = inl g /\ names_iris shapes L /\
+              node_objects_declared g (map fst L) /\ property_shapes_one_path g /\ node_shapes_exact g L.
+Proof. exact shacl_graph_wellformed_class. Qed.
+Print Assumptions C05_shacl_wellformed_class.
 
 (** S4, the whole run.  With the default shapes namespace and a graph none of
     whose property / datatype / class IRIs starts with the shape marker, the
@@ -495,12 +537,32 @@ Theorem C05_shacl_run : forall fa c thr g ns shapes tr L,
   r_shapes_ns c = c_SHAPES_DEFAULT_NAMESPACE ->
   forallb (sentinel_free (r_tau c)) g = true ->
   run_shapes fa c thr g = inl (ns, shapes) ->
-  shacl_graph ns (r_tau c) shapes = inl tr -> names_iris shapes L ->
+  shacl_graph ns (r_tau c) shapes = inl tr -> names_iris_by target_class_obj shapes L ->
   node_objects_declared tr (map fst L) /\ property_shapes_one_path tr /\
   (forall n, node_shape tr n <-> exists u cl, In (u, cl) L /\ n = TIri u) /\
   (NoDup (map fst L) -> node_shapes_exact tr L).
 Proof. exact run_shacl_graph. Qed.
 Print Assumptions C05_shacl_run.
+
+(** no class key of a class-based run is written in corners when no class IRI of the graph (object of an
+    instantiation triple) and no requested target class is: [sh:targetClass] then names the class key,
+    whichever text [_add_target_class] has, and S4 reads with [names_iris] *)
+Theorem C05_run_classes_plain : forall fa c thr g ns shapes,
+  classes_plain c g -> run_shapes fa c thr g = inl (ns, shapes) ->
+  forall sh, In sh shapes -> target_class_obj (sh_class sh) = sh_class sh.
+Proof. exact run_classes_plain. Qed.
+Print Assumptions C05_run_classes_plain.
+
+Theorem C05_shacl_run_class : forall fa c thr g ns shapes tr L,
+  r_shapes_ns c = c_SHAPES_DEFAULT_NAMESPACE ->
+  forallb (sentinel_free (r_tau c)) g = true -> classes_plain c g ->
+  run_shapes fa c thr g = inl (ns, shapes) ->
+  shacl_graph ns (r_tau c) shapes = inl tr -> names_iris shapes L ->
+  node_objects_declared tr (map fst L) /\ property_shapes_one_path tr /\
+  (forall n, node_shape tr n <-> exists u cl, In (u, cl) L /\ n = TIri u) /\
+  (NoDup (map fst L) -> node_shapes_exact tr L).
+Proof. exact run_shacl_graph_class. Qed.
+Print Assumptions C05_shacl_run_class.
 
 (** the helper-call sequence of [_add_shape] the model interprets, and the self-calls / [_add_triple]
     templates of the helpers it follows, as read from the Python source: an edit of any of these bodies
@@ -523,7 +585,11 @@ Example C05_shacl_tables_as_read :
      (Str "_add_min_iri", [Str "_add_triple"; Str "_literal_iri_pattern"])] /\
   shacl_leaf_triples =
     [(Str "_add_shape_uri", [(Str "r_shape_uri", Str "RDF.type", Str "_R_SHACL_SHAPE_URI")]);
-     (Str "_add_target_class", [(Str "r_shape_uri", Str "_R_SHACL_TARGET_CLASS_PROP", Str "URIRef(shape.class_uri)")]);
+     (Str "_add_target_class",
+      [(Str "r_shape_uri", Str "_R_SHACL_TARGET_CLASS_PROP",
+        if c_shacl_target_strips_corners
+        then Str "URIRef(remove_corners(a_uri=shape.class_uri, raise_error_if_no_corners=False))"
+        else Str "URIRef(shape.class_uri)")]);
      (Str "_add_min_iri", [(Str "r_shape_uri", Str "_R_SHACL_PATTERN_PROP", Str "self._literal_iri_pattern(shape)")]);
      (Str "_add_bnode_property", [(Str "r_shape_uri", Str "_R_SHACL_PROPERTY_PROP", Str "r_constraint_node");
                                   (Str "r_constraint_node", Str "RDF.type", Str "_R_SHACL_PROPERTY_SHAPE_URI")]);
@@ -546,8 +612,22 @@ Example C05_shacl_tables_as_read :
    c_shacl_R_SHACL_PATH_PROP; c_shacl_R_SHACL_INVERSE_PATH_PROP; c_shacl_R_SHACL_PROPERTY_PROP;
    c_shacl_R_SHACL_NODE_PROP; c_shacl_R_SHACL_PATTERN_PROP] =
   [SH "NodeShape"; SH "PropertyShape"; SH "targetClass"; SH "path"; SH "inversePath"; SH "property"; SH "node";
-   SH "pattern"].
-Proof. repeat split. Qed.
+   SH "pattern"] /\
+  (* the two texts of [_add_target_class] the model knows, and the flag that says which one was read
+     (tools/gen_consts.py fails on any third text) *)
+  c_shacl_target_class_texts =
+    [(false, Str "URIRef(shape.class_uri)");
+     (true, Str "URIRef(remove_corners(a_uri=shape.class_uri, raise_error_if_no_corners=False))")] /\
+  In (c_shacl_target_strips_corners,
+      match dget shacl_leaf_triples (Str "_add_target_class") with Some [(_, _, o)] => o | _ => [] end)
+     c_shacl_target_class_texts /\
+  (* disjunctions: the helpers that read [statement.st_type], and what it does for a choice statement *)
+  shacl_steps_reading_st_type = [Str "_add_node_type"; Str "_add_in_instance"] /\
+  c_choice_st_type_raises = Str "TypeError".
+Proof.
+  repeat split; try reflexivity.
+  destruct c_shacl_target_strips_corners eqn:E; first [vm_compute in E; discriminate E | vm_compute; auto].
+Qed.
 
 (** ** non-vacuity: the run of [C05_dom_inhabited] (classes C and D, an arc a -p-> b between their
     instances, inverse paths on) *)
@@ -568,7 +648,8 @@ Example C05_shacl_inhabited :
   run_shapes BAlg (fst c05_in1) (b_ratio 0 1) (snd c05_in1) = inl c05_shapes1 /\
   forallb (SerialShacl.C11_dom_shape (fst c05_shapes1) (r_tau (fst c05_in1))) (snd c05_shapes1) = true /\
   shacl_graph (fst c05_shapes1) (r_tau (fst c05_in1)) (snd c05_shapes1) = inl c05_sgraph1 /\
-  names_iris (snd c05_shapes1) c05_L1 /\ NoDup (map fst c05_L1) /\
+  names_iris (snd c05_shapes1) c05_L1 /\ names_iris_by target_class_obj (snd c05_shapes1) c05_L1 /\
+  classes_plain (fst c05_in1) (snd c05_in1) /\ NoDup (map fst c05_L1) /\
   (* the graph has two node shapes, an [sh:node] arc, direct and inverse paths *)
   List.length c05_sgraph1 = 39 /\
   objects c05_sgraph1 (TIri (Str "http://weso.es/shapes/C")) (RDFNS "type") = [TIri (SH "NodeShape")] /\
@@ -580,7 +661,14 @@ Example C05_shacl_inhabited :
 Proof.
   split; [reflexivity|]. split; [vm_compute; reflexivity|]. split; [vm_compute; reflexivity|].
   split; [vm_compute; reflexivity|]. split; [vm_compute; reflexivity|].
-  split; [repeat constructor|]. split; [repeat constructor; cbn; intros H; repeat destruct H as [H|H]; try discriminate H; exact H|].
+  split; [repeat constructor|].
+  split; [repeat (constructor; [split; vm_compute; reflexivity|]); constructor|].
+  split.
+  { split.
+    - intros t o Hin _ Ho. cbn in Hin. repeat destruct Hin as [<-|Hin]; try destruct Hin; cbn in Ho;
+        try discriminate Ho; injection Ho as <-; reflexivity.
+    - intros l x Hl. cbn in Hl. discriminate Hl. }
+  split; [repeat constructor; cbn; intros H; repeat destruct H as [H|H]; try discriminate H; exact H|].
   repeat split; vm_compute; reflexivity.
 Qed.
 
@@ -612,7 +700,11 @@ Proof.
   split.
   - intros H. apply (C05_shacl_node_shapes_iff _ _ _ _ _ Hg HL) in H. destruct H as [u [cl [Hin E]]].
     injection E as E. subst u. cbn in Hin. destruct Hin as [H|[H|[]]]; discriminate H.
-  - split; [exact (C05_shacl_one_path _ _ _ _ Hg) | exact (C05_shacl_one_node_shape_per_shape _ _ _ _ _ Hg HL Hnd)].
+  - split; [exact (C05_shacl_one_path _ _ _ _ Hg)|].
+    assert (Hcl : forall sh, In sh (snd c05_shapes2) -> target_class_obj (sh_class sh) = sh_class sh).
+    { intros sh Hin. apply ShaclProofs.target_class_obj_plain. unfold c05_shapes2 in Hin. cbn [snd In] in Hin.
+      repeat destruct Hin as [<-|Hin]; try destruct Hin; reflexivity. }
+    exact (C05_shacl_one_node_shape_per_shape_class _ _ _ _ _ Hcl Hg HL Hnd).
 Qed.
 
 (** Faults are explicit outcomes: a non-http(s) predicate, an ill-formed label and a missing entry of the
@@ -629,3 +721,77 @@ Example C05_shacl_faults :
                             [sh "%<http://weso.es/shapes/C>"%string "http://ex.org/p"%string] = inl g /\
             objects g (TIri (Str "http://weso.es/shapes/C")) (SH "pattern") = [TLit (Str "^http://ex.org/i") []].
 Proof. repeat split; try (vm_compute; reflexivity). eexists. split; vm_compute; reflexivity. Qed.
+
+(** * SHACL graphs of shape-map runs ([Model.RunMapShacl]; reachable since [_add_target_class]
+    removes the corners a label is kept in -- finding C04-F2, Props/C04.v).  S1-S3 hold for them as for
+    class-based runs: S2 and S3 for whatever graph the serialiser builds, S1 when the references of the
+    shapes resolve, which a pure shape-map run (no target classes, all_classes_mode off) guarantees on
+    graphs free of the shape marker ([C05_map_pure_refs_closed]): its class keys are labels of the map,
+    which the profile cleaning never removes.  For labels [<iri>] the node shape of a label is the
+    label's IRI and its [sh:targetClass] is that IRI too ([label_pairs]). *)
+From Shexer Require Import Model.RunMap Model.RunMapShacl Proofs.ShaclMapProofs.
+From Shexer Require Model.Selectors.
+
+Theorem C05_map_shacl_graph : forall fa c orc sp thr g ns shapes tr L,
+  run_shapes_map fa c orc sp thr g = inl (ns, shapes) ->
+  shacl_graph ns (tau_shaper sp) shapes = inl tr -> names_iris_by target_class_obj shapes L ->
+  (ClosureLemmas.refs_closed shapes -> node_objects_declared tr (map fst L)) /\ property_shapes_one_path tr /\
+  (forall n, node_shape tr n <-> exists u cl, In (u, cl) L /\ n = TIri u) /\
+  (NoDup (map fst L) -> node_shapes_exact tr L).
+Proof. exact map_shacl_graph. Qed.
+Print Assumptions C05_map_shacl_graph.
+
+Theorem C05_map_refs_closed : forall fa c orc sp thr g ns shapes,
+  run_shapes_map fa c orc sp thr g = inl (ns, shapes) ->
+  (forall I targets P C ID, Selectors.run orc sp g = Selectors.OOk I -> prof_targets orc sp = Selectors.Ok targets ->
+     profile (pcfg_map c orc sp targets) I g = inl (P, C, ID) -> ClosureLemmas.profile_refs_closed P) ->
+  ClosureLemmas.refs_closed shapes.
+Proof. exact map_refs_closed. Qed.
+Print Assumptions C05_map_refs_closed.
+
+Theorem C05_map_pure_refs_closed : forall fa c orc sp thr g ns shapes,
+  pure_map sp -> forallb (sentinel_free (Selectors.tau_of sp)) g = true ->
+  run_shapes_map fa c orc sp thr g = inl (ns, shapes) -> ClosureLemmas.refs_closed shapes.
+Proof. exact map_pure_refs_closed. Qed.
+Print Assumptions C05_map_pure_refs_closed.
+
+(** S1-S3 from the input alone *)
+Theorem C05_map_pure_shacl_run : forall fa c orc sp thr g ns shapes tr,
+  c_shacl_target_strips_corners = true -> pure_map sp -> labels_cornered orc sp ->
+  forallb (sentinel_free (Selectors.tau_of sp)) g = true ->
+  run_shapes_map fa c orc sp thr g = inl (ns, shapes) ->
+  shacl_graph ns (tau_shaper sp) shapes = inl tr ->
+  node_objects_declared tr (map fst (label_pairs shapes)) /\
+  property_shapes_one_path tr /\ node_shapes_exact tr (label_pairs shapes).
+Proof. exact map_pure_shacl_run. Qed.
+Print Assumptions C05_map_pure_shacl_run.
+
+(** non-vacuity: the pinned shape-map run of Proofs/RunMapWitness.v (labels <http://sh/S>, <http://sh/T>;
+    T's node has no triple; remove_empty_shapes and keep_less_specific off so that both shapes are printed and the reference
+    S -> T is there) *)
+From Shexer Require Import Proofs.RunWitness Proofs.RunMapWitness.
+
+Example C05_map_shacl_inhabited :
+  pure_map m_spec /\ labels_cornered m_orc m_spec /\
+  forallb (sentinel_free (Selectors.tau_of m_spec)) m_graph = true /\
+  exists ns shapes tr,
+    run_shapes_map BAlg (with_kls false (with_remove false base_rcfg)) m_orc m_spec thr0 m_graph = inl (ns, shapes) /\
+    shacl_graph ns (tau_shaper m_spec) shapes = inl tr /\
+    map sh_class shapes = [Str "<http://sh/S>"; Str "<http://sh/T>"] /\
+    label_pairs shapes = [(Str "http://sh/S", Str "http://sh/S"); (Str "http://sh/T", Str "http://sh/T")] /\
+    existsb (fun t => str_eqb (tr_pred t) (SH "node")) tr = true /\
+    node_objects_declaredb tr (map fst (label_pairs shapes)) = true /\ property_shapes_one_pathb tr = true /\
+    (c_shacl_target_strips_corners = true ->
+     objects tr (TIri (Str "http://sh/T")) (SH "targetClass") = [TIri (Str "http://sh/T")]) /\
+    (c_shacl_target_strips_corners = false ->
+     objects tr (TIri (Str "http://sh/T")) (SH "targetClass") = [TIri (Str "<http://sh/T>")]).
+Proof.
+  split; [split; reflexivity|].
+  split; [intros l Hl; vm_compute in Hl; repeat destruct Hl as [<-|Hl]; try destruct Hl;
+          first [exists (Str "http://sh/S"); split; reflexivity | exists (Str "http://sh/T"); split; reflexivity]|].
+  split; [vm_compute; reflexivity|].
+  do 3 eexists. split; [vm_compute; reflexivity|]. split; [vm_compute; reflexivity|].
+  split; [vm_compute; reflexivity|]. split; [vm_compute; reflexivity|]. split; [vm_compute; reflexivity|].
+  split; [vm_compute; reflexivity|]. split; [vm_compute; reflexivity|].
+  split; intros E; first [vm_compute in E; discriminate E | vm_compute; reflexivity].
+Qed.
